@@ -162,9 +162,41 @@ def changing_options(s):  # noqa: C901
     return out
 
 
+LEAVES = [["int"], ["str"], ["date"], ["bool"], ["float"], ["none"], ["bytes"], ["decimal"], ["literal", [1]], ["literal", ["1"]],
+          ["literal", [True]], ["uuid"]]
+
+
+@st.composite
+def st_deep_twins(draw):
+    """A union whose members share the origin and the origins of their direct arguments and differ only deeper
+    (list[list[date]] | list[list[str]]): canonical member order must not depend on the order written."""
+    def wrap(leaf, shape):
+        if shape == "ll":
+            return ["list", ["list", leaf, "typing"], "typing"]
+        if shape == "dl":
+            return ["dict", ["str"], ["list", leaf, "typing"], "typing"]
+        if shape == "vl":
+            return ["vtuple", ["list", leaf, "typing"], "typing"]
+        if shape == "lll":
+            return ["list", ["list", ["list", leaf, "typing"], "typing"], "typing"]
+        if shape == "lo":
+            return ["list", ["optional", ["list", leaf, "typing"], "optional"], "typing"]
+        return ["set", ["frozenset", leaf, "typing"], "typing"]
+    shape = draw(st.sampled_from(["ll", "dl", "vl", "lll", "lo", "sf"]))
+    k = draw(st.integers(2, 3))
+    leaves = draw(st.lists(st.sampled_from(LEAVES), min_size=k, max_size=k, unique_by=repr))
+    members = [wrap(lf, shape) for lf in leaves]
+    if draw(st.booleans()):
+        members.append(draw(st.sampled_from([["int"], ["none"], ["str"]])))
+    t = ["union", members, "typing"]
+    if draw(st.booleans()):
+        t = ["list", t, "typing"]
+    return t
+
+
 @st.composite
 def st_case(draw):
-    t = draw(GEN.strategy())
+    t = draw(st_deep_twins()) if draw(st.integers(0, 4)) == 0 else draw(GEN.strategy())
     mode = draw(st.sampled_from(["preserve", "preserve", "change"]))
     steps = []
     cur = t
